@@ -74,5 +74,22 @@ class Walk:
         return n
 
 
+def relevant_loops(w):
+    """the loops of a walk that its result depends on: those that contain the per-file analysis call, the recursive call, a read of a file's content,
+    the directory listing, or a site that touches the accumulator. A loop that contains none of these (printing the diagnostics of a file that did
+    not parse, say) can be left early without any entry, pattern or nested result being lost"""
+    import order as O
+    b = w.body
+    marks = set(s.bb for s in (w.analyze + w.self_calls + w.reads + w.read_dir))
+    for s in w.sites:
+        if s.args and (s.args[0] == w.acc or O.root_object(s.args[0]) == w.acc):
+            marks.add(s.bb)
+    out = []
+    for lp in O.loops_of_body(b):
+        if "ReadDir" in lp.self_ty or any(m in lp.blocks for m in marks):
+            out.append(lp)
+    return out
+
+
 def walks(crate):
     return [Walk(crate, p) for p in SIBLINGS]
